@@ -182,6 +182,10 @@ def cleanup_completed_stage_claims(conn: sqlite3.Connection) -> int:
 
     Claims of live executions are never touched: removing one would
     resurrect the mutex/deferred-choice race the claim exists to prevent.
+    An execution can be terminal while some of its stages are still live
+    (CompleteWorkflow fails the execution as soon as one branch is TERMINAL or
+    CANCELED and only cancels RUNNING stages), so a claim whose owner stage is
+    still RUNNING / SUSPENDED / PAUSED is kept as well.
     """
     from stabilize.models.status import WorkflowStatus
 
@@ -193,6 +197,10 @@ def cleanup_completed_stage_claims(conn: sqlite3.Connection) -> int:
         WHERE execution_id IN (
             SELECT id FROM pipeline_executions
             WHERE status IN ({placeholders})
+        )
+        AND stage_id NOT IN (
+            SELECT id FROM stage_executions
+            WHERE status IN ('RUNNING', 'SUSPENDED', 'PAUSED')
         )
         """,
         terminal,
